@@ -18,7 +18,8 @@ func (x *counters) Add(addr oid.Address, size uint64) {
 	x.mu.Lock()
 	defer x.mu.Unlock()
 
-	x.size += size
+	// addr may be counted already (object put again): replace its size, don't add to it
+	x.size += size - x.objMap[addr]
 	x.objMap[addr] = size
 }
 
